@@ -493,3 +493,54 @@ Lemma ex_sops_run : Forall wf_sop ex_sops /\
    OFrame (FCtl 5); OFrame (FHdr 3 2); OFrame (FData 1 7 4 false); OFrame (FData 1 11 2 false); ONone;
    OBool true; OFrame (FData 1 13 3 true); ONone; ONone].
 Proof. split; [repeat constructor; simpl; lia|vm_compute; reflexivity]. Qed.
+
+(* ---------- the central statement over the wire functions ---------- *)
+Lemma wf_sopb_wf o : wf_sopb o = true -> wf_sop o.
+Proof. destruct o as [? ?|f| |?|? ?|?]; try destruct f; simpl; intro H; try exact I; lia. Qed.
+
+Lemma as_LZ_vLZ l : as_LZ (vLZ l) = Some l.
+Proof.
+  unfold as_LZ, vLZ. rewrite map_map. induction l as [|x l IH]; simpl; [reflexivity|].
+  simpl in IH. rewrite IH. reflexivity.
+Qed.
+Lemma dec_fr_enc f : dec_fr (enc_fr f) = Some f.
+Proof. destruct f as [?|? ? ? []|? ?]; reflexivity. Qed.
+Lemma dec_sobs_enc ob : dec_sobs (enc_sobs ob) = Some ob.
+Proof. destruct ob as [|f|[]|]; simpl; try reflexivity. rewrite dec_fr_enc. reflexivity. Qed.
+Lemma dec_steps_enc l : dec_steps (VL (map enc_step l)) = Some l.
+Proof.
+  unfold dec_steps. rewrite map_map. induction l as [|[ob [cw ws]] r IH]; simpl; [reflexivity|].
+  rewrite dec_sobs_enc. pose proof (as_LZ_vLZ ws) as E. unfold as_LZ, vLZ in E. rewrite E. simpl in IH. rewrite IH. reflexivity.
+Qed.
+
+Lemma dec_lobs_enc l : dec_lobs (enc_lobs l) = Some l.
+Proof.
+  unfold dec_lobs, enc_lobs. rewrite map_map. induction l as [|es r IH]; simpl; [reflexivity|].
+  assert (E : all_some (map dec_levent (map enc_levent es)) = Some es).
+  { rewrite map_map. induction es as [|e es IHe]; simpl; [reflexivity|].
+    assert (dec_levent (enc_levent e) = Some e) as -> by (destruct e as [? ? [] []| |]; reflexivity).
+    simpl in IHe. rewrite IHe. reflexivity. }
+  rewrite E. simpl in IH. rewrite IH. reflexivity.
+Qed.
+
+(* a server that acknowledges SETTINGS and sends nothing is always within the client's windows *)
+Lemma lcanon_ok script : forall s, l_pend s = [] -> l_dead s = false -> lvalidate s script (lcanon script) = true.
+Proof.
+  induction script as [|a r IH]; intros s Hp Hd; [reflexivity|].
+  destruct s as [cw iw mf pend last str dead]. simpl in Hp, Hd. subst pend dead.
+  destruct a as [sid n|sid inc|v|v|sid]; cbn.
+  - destruct (find_stream sid str); cbn; apply IH; reflexivity.
+  - destruct (sid =? 0); cbn; apply IH; reflexivity.
+  - cbn. apply IH; reflexivity.
+  - cbn. apply IH; reflexivity.
+  - cbn. apply IH; reflexivity.
+Qed.
+
+Lemma prop_C34_of_model i : wf_C34 i = true -> prop_C34 i (run_C34 i) = true.
+Proof.
+  unfold wf_C34, prop_C34, run_C34. destruct (dec_live i) as [script|].
+  - intros _. unfold live_ok. rewrite dec_lobs_enc. apply lcanon_ok; reflexivity.
+  - destruct (dec_sops i) as [ops|]; [|discriminate]. intro Hwf.
+    rewrite dec_steps_enc. apply model_run_meets_spec.
+    apply Forall_forall. intros o Ho. apply wf_sopb_wf. rewrite forallb_forall in Hwf. auto.
+Qed.
